@@ -184,6 +184,18 @@ func runPoolTask(ti int, pt *scn.PoolTask, ts *poolTaskState, stampBase uint64) 
 			if !ts.verify(ti, "verify op "+strconv.Itoa(oi)) {
 				return
 			}
+		case "renew":
+			// the caller lets go of the pool and keeps every object it got from
+			// it; a new pool of the same kind and block size takes its place
+			m := ts.models[op.Pool]
+			zzsim.BeginOp(100000 + 100*int64(m.spec.Block))
+			if m.spec.Type == "token" {
+				m.tp = token.NewPool(m.spec.Block)
+			} else {
+				m.pp = position.NewPool(m.spec.Block)
+			}
+			zzsim.BeginOp(zzsim.Inf)
+			zzsim.AddProbe(probePoolRenewed, 1)
 		case "gc":
 			zzsim.ForceGC()
 			if !ts.verify(ti, "after forced GC at op "+strconv.Itoa(oi)) {
